@@ -44,6 +44,7 @@ class CacheAwareDict(MutableMapping[K, V]):
 
     def __delitem__(self, key: K):
         del self.wrapped[key]
+        reset()
 
     def __len__(self) -> int:
         return len(self.wrapped)
